@@ -4,7 +4,9 @@ Oracle: the installed scikit-image (float64) run on exactly the inputs handed to
 (float32): `radon(circle=True)`, `_get_fourier_filter`, `iradon` fed with the *same* sinogram (so
 errors of the forward transform do not compound), plus metamorphic relations on the port itself
 (batched == per-image, linearity, 0 degree projection == column sums of the disc-masked image) and
-one monitored execution path through the caller `TomographyConv._sirt_run_epoch`.
+one monitored execution path through the caller `TomographyConv._sirt_run_epoch`.  On a share of the
+cases the history continues the way a caller may continue it: the returned tensor is edited in place and
+the same call repeated (results must be independent values), and arguments are compared with snapshots.
 """
 from __future__ import annotations
 
@@ -32,11 +34,12 @@ ASSUMPTIONS = [
     "inputs are float32 tensors (the port builds float32 sampling grids; float64 images are refused by grid_sample) and angles are tensors, as in tomography_conv.py",
     "square images only (the property's domain); images handed to scikit-image are zero outside the inscribed disc (its documented precondition), the port is additionally fed the unmasked image",
     "iradon output_size is the default or smaller; pixels whose back-projection coordinate lies within 1e-3 of the first/last detector sample for some angle are not judged (np.interp's left/right cut is discontinuous there; none occur in the default geometry)",
+    "call histories include what a caller may do with values it owns: returned filters / sinograms / reconstructions are edited in place (zeroed, scaled, offset) and the same call is repeated - it must return the same, still skimage-conforming, result; argument tensors (images, sinograms, theta) are compared with snapshots after every such call",
     "bounds are relative to max|reference| and sized >= 100x the float32 noise floor measured on the repaired tree (see TOL)",
 ]
 BUDGET = {"quick": {"soft_s": 150}, "thorough": {"soft_s": 900}}
 MIN_EVALUATIONS = {"quick": 1500, "thorough": 15000}
-REQUIRED_COUNTERS = ["eval:radon_mismatch", "eval:iradon_mismatch", "eval:filter_mismatch", "eval:radon_batch_mismatch", "eval:radon_nonlinear", "eval:zero_deg_projection"]
+REQUIRED_COUNTERS = ["eval:radon_mismatch", "eval:iradon_mismatch", "eval:filter_mismatch", "eval:radon_batch_mismatch", "eval:radon_nonlinear", "eval:zero_deg_projection", "eval:result_not_independent", "eval:argument_modified"]
 
 FILTERS = ["ramp", "shepp-logan", "cosine", "hamming", "hann", None]
 ANGLE_CLASSES = ["axis", "uniform", "random", "dup", "single", "endpoints", "many"]
@@ -202,6 +205,44 @@ def _at(d):
 
 
 # ------------------------------------------------------------------------------------------------
+# value independence: a returned tensor belongs to the caller, arguments belong to the caller too
+
+
+def _scribble(ctx, t, rng):
+    """edit a returned tensor in place the way a caller might (band-limit / rescale / offset it)."""
+    try:
+        m = int(rng.integers(3))
+        if m == 0:
+            t.zero_()
+        elif m == 1:
+            t.mul_(-2.5)
+        else:
+            t.add_(1.0)
+        ctx.count("results_edited_in_place")
+        return True
+    except Exception:  # noqa: BLE001  (a result that refuses in-place edits cannot be corrupted this way)
+        ctx.count("result_refused_in_place_edit")
+        return False
+
+
+def _args_unchanged(ctx, function, pairs, common):
+    for name, before, after in pairs:
+        if before is None:
+            continue
+        ctx.check(np.array_equal(before, after, equal_nan=True), "argument_modified", "%s modified its argument %r in place" % (function, name), function=function, argument=name, **common)
+
+
+def _independent(ctx, function, second, snap, ref, scale, tol, common, what, mask=None):
+    d1 = np.abs(second - snap)
+    d2 = np.abs(second - ref)
+    if mask is not None:
+        d2 = d2 * mask
+    ctx.close(float(d1.max()) / scale, TOL["batch"], "result_not_independent", "%s: %s; the same call then returned something else (worst change %.4g of scale %.4g)" % (function, what, float(d1.max()), scale), function=function, **common)
+    ctx.close(float(d2.max()) / scale, tol, "mismatch_after_result_edited", "%s: %s; the same call then no longer agrees with scikit-image" % (function, what), function=function, **common)
+
+
+
+# ------------------------------------------------------------------------------------------------
 # cases
 
 
@@ -217,6 +258,15 @@ def _run_filter(spec, idx, ctx):
         r = ref.ravel()
         scale = float(np.max(np.abs(r))) or 1.0
         ctx.close(float(np.max(np.abs(o - r))) / scale, TOL["filter"], "filter_mismatch", lambda: "get_fourier_filter_torch(%d,%r) vs skimage: worst at k=%d torch=%r ref=%r" % (size, f, int(np.argmax(np.abs(o - r))), float(o[np.argmax(np.abs(o - r))]), float(r[np.argmax(np.abs(o - r))])), **common)
+        # the returned filter is the caller's: editing it in place must not change what later calls get
+        rng = ctx.rng(idx)
+        snap = o.copy()
+        for dev in (None, torch.device("cpu")):
+            got = qr.get_fourier_filter_torch(size, f, device=dev)
+            _scribble(ctx, got, rng)
+        _scribble(ctx, out, rng)
+        again = _np(qr.get_fourier_filter_torch(size, f)).ravel()
+        _independent(ctx, "get_fourier_filter_torch", again, snap, r, scale, TOL["filter"], common, "a filter returned for (%d, %r) was edited in place" % (size, f))
     ctx.nontrivial(("filter", _fname(f), size), f is not None and size >= 4)
     ctx.observe(filter=_fname(f), size=size)
 
@@ -286,8 +336,51 @@ def _run_radon(spec, idx, ctx):
     zscale = max(float(np.max(np.abs(cols))), 1e-30)
     ctx.close(float(np.max(np.abs(z[:, 0, :] - cols))) / zscale, TOL["zero_deg"], "zero_deg_projection", lambda: "N=%d: projection at 0 deg vs column sums, worst column %d: %.6g vs %.6g" % (n, int(np.argmax(np.abs(z[:, 0, :] - cols).max(0))), z[:, 0, :].flat[int(np.argmax(np.abs(z[:, 0, :] - cols)))], cols.flat[int(np.argmax(np.abs(z[:, 0, :] - cols)))]), **common)
 
+    if rng.random() < 0.4:
+        _radon_independence(ctx, rng, raw, theta32, out_raw, ref, scale, common)
     ctx.nontrivial(("radon", par, spec["angles"], spec["image"], B), float(np.ptp(masked)) > 0 and _n_oblique(theta_ref) >= 2)
     ctx.observe(n=n, batch=B, n_angles=A, angles_head=theta_ref[:4], worst_rel=float(d.max()) / scale)
+
+
+def _radon_independence(ctx, rng, imgs32, theta32, first, ref, scale, common):
+    """arguments are not modified; a result edited by its owner does not leak into the next call."""
+    torch, qr = ctx.state["torch"], ctx.state["qr"]
+    img_np = imgs32.copy()
+    th_np = None if theta32 is None else theta32.copy()
+    t = torch.from_numpy(img_np)
+    th = None if th_np is None else torch.from_numpy(th_np)
+    res = qr.radon_torch(t, theta=th)
+    _args_unchanged(ctx, "radon_torch", [("images", imgs32, img_np), ("theta", theta32, th_np)], common)
+    snap = _np(res)
+    snap = snap[None] if snap.ndim == 2 else snap
+    ctx.close(float(np.max(np.abs(snap - first))) / scale, TOL["batch"], "result_not_independent", "radon_torch: repeated identical call differs", function="radon_torch", **common)
+    if _scribble(ctx, res, rng):
+        _args_unchanged(ctx, "radon_torch (result edited)", [("images", imgs32, img_np), ("theta", theta32, th_np)], common)
+    again, _ = _radon_call(ctx, imgs32, theta32)
+    _independent(ctx, "radon_torch", again, snap, ref, scale, TOL["radon"], common, "the returned sinogram was edited in place")
+
+
+def _iradon_independence(ctx, rng, n, sino32, theta32, f, circle, osz, first, ref, scale, amb, common):
+    torch, qr = ctx.state["torch"], ctx.state["qr"]
+    s_np = sino32.copy()
+    th_np = None if theta32 is None else theta32.copy()
+    th = None if th_np is None else torch.from_numpy(th_np)
+    res = qr.iradon_torch(torch.from_numpy(s_np), theta=th, output_size=osz, filter_name=f, circle=circle)
+    _args_unchanged(ctx, "iradon_torch", [("sinograms", sino32, s_np), ("theta", theta32, th_np)], common)
+    snap = _np(res)
+    snap = snap[None] if snap.ndim == 2 else snap
+    ctx.close(float(np.max(np.abs(snap - first))) / scale, TOL["batch"], "result_not_independent", "iradon_torch: repeated identical call differs", function="iradon_torch", **common)
+    if _scribble(ctx, res, rng):
+        _args_unchanged(ctx, "iradon_torch (result edited)", [("sinograms", sino32, s_np), ("theta", theta32, th_np)], common)
+    again, _ = _iradon_call(ctx, sino32, theta32, f, circle, osz)
+    _independent(ctx, "iradon_torch", again, snap, ref, scale, TOL["iradon"], common, "the returned reconstruction was edited in place", mask=(~amb)[None])
+    # a filter obtained from the public constructor and edited by its owner must not reach iradon_torch
+    nd = int(math.ceil(math.sqrt(2) * n)) if circle else n
+    for size in sorted({_pow2(nd), _pow2(n)}):
+        for dev in (None, torch.device("cpu")):
+            _scribble(ctx, qr.get_fourier_filter_torch(size, f, device=dev), rng)
+    again, _ = _iradon_call(ctx, sino32, theta32, f, circle, osz)
+    _independent(ctx, "iradon_torch", again, snap, ref, scale, TOL["iradon"], common, "a filter returned by get_fourier_filter_torch for the same size and name was edited in place", mask=(~amb)[None])
 
 
 def _iradon_call(ctx, sino32, theta32, f, circle, osz):
@@ -379,6 +472,8 @@ def _run_iradon(spec, idx, ctx):
     lscale = max(float(np.max(np.abs(lin))), abs(a) * scale, abs(b) * float(np.max(np.abs(o_other))), 1e-30)
     ctx.close(float(np.max(np.abs(o_comb - lin))) / lscale, TOL["linear"], "iradon_nonlinear", "N=%d: B(a s + b t) != a B(s) + b B(t), a=%.3f b=%.3f" % (n, a, b), **common)
 
+    if rng.random() < 0.4:
+        _iradon_independence(ctx, rng, n, sino32, theta32, f, circle, osz, out, ref, scale, amb, common)
     ctx.nontrivial(("iradon", par, _fname(f), bool(circle), spec["angles"], B, spec["sino"]), float(np.ptp(sino32)) > 0 and _n_oblique(th_eff) >= 2)
     ctx.observe(n=n, batch=B, n_angles=A, filter=_fname(f), circle=bool(circle), output_size=out_n, worst_rel=float(d.max()) / scale)
 
